@@ -265,6 +265,8 @@ pub fn scenarios(prop: &str, tier: &str) -> Vec<Cfg> {
             // more children than the per-poll budget, and children in two or three groups
             let dd = if thorough { 5 } else { 4 };
             for (k, n, m) in [
+                (Kind::Fub(130), 61, Mode::Gate),
+                (Kind::Fub(130), 123, Mode::Gate),
                 (Kind::Fub(130), 62, Mode::Yield1),
                 (Kind::Fub(130), 63, Mode::Gate),
                 (Kind::Fub(130), 130, Mode::Gate),
@@ -403,7 +405,7 @@ pub fn scenarios(prop: &str, tier: &str) -> Vec<Cfg> {
                     c.prefill = (0..pre).map(|_| f(Mode::Gate)).collect();
                     c.seed = seed;
                     c.specs = vec![f(Mode::Gate), f(Mode::Ready)];
-                    c.ops = ops::PUSH | ops::PUSH_FRONT | ops::POLL | ops::COMPLETE;
+                    c.ops = ops::PUSH | ops::PUSH_FRONT | ops::POLL | ops::COMPLETE | ops::EXTEND;
                     c.depth = d;
                     c.epilogue = Epilogue::Drain;
                     v.push(c);
@@ -1033,7 +1035,7 @@ pub fn scenarios(prop: &str, tier: &str) -> Vec<Cfg> {
                 v.push(c);
             }
             for k in [Kind::Bu(1), Kind::Bu(2), Kind::Bo(1), Kind::Bo(2), Kind::Tbu(1), Kind::Tbu(2), Kind::Tbo(1), Kind::Tbo(2), Kind::Bo(3), Kind::Tbo(3)] {
-                for hint in [HintShape::Exact, HintShape::Unknown, HintShape::Loose] {
+                for hint in [HintShape::Exact, HintShape::Unknown, HintShape::Loose, HintShape::LooseMax] {
                     for len in [0usize, 1, 3] {
                         let mut c = adapter_cfg("C17", k, len, hint, d + 1, 2);
                         c.check_hints = true;
